@@ -51,7 +51,10 @@
 
 using vj::Value;
 
-static int HANG_S = 120;              // CPU seconds granted to one request (independent of the machine load)
+// CPU seconds granted to one request (CPU time, so that the verdict does not depend on the machine load).
+// Legitimate fits that run to the default limit of 1000 iterations were measured at up to 90 s (3-D rotation,
+// Bessel functions, maps): the limit leaves a factor of six.
+static int HANG_S = 600;
 static const double PI_ = 3.14159265358979323846;
 static const double DPAS = 10.;          // lag size (length unit)
 static const double MICRO = 1.e6;
